@@ -168,7 +168,7 @@ theorem found_claims {ns : Bool} {R : Path} {dc : List Name} {x : Name} {g : Pat
     (hnb : noBaseBelow o R (x :: dc.reverse) = true) (hnbs : o.isBase (R ++ dc ++ [x ++ sStubs]) = false)
     (hs : scanDir fs ns (R ++ dc) x dc.length = .found g) :
     fs.isFile g = true ∧ crawlUp fs o g = .some (dc ++ [x]) R ∧ g ∈ pkgFiles (R ++ dc) x ++ modFiles (R ++ dc) x := by
-  obtain ⟨hv, hmem, hfile⟩ := scanDir_found fs hs
+  obtain ⟨hv, hmem, hfile⟩ := scanDir_found fs hxi hs
   simp only [noBaseBelow, Bool.and_eq_true, Bool.not_eq_true'] at hnb
   have hv' : verifyFrom fs (dc.reverse ++ R.reverse) dc.reverse.length = true := by simpa using hv
   have hchain := chainOK_of_verify fs o dc.reverse (by simpa using hdc) hnb.2 hv'
@@ -195,7 +195,7 @@ theorem find_claims_nons (wf : fs.WF) (hns : o.ns = false) {roots : List Path} {
   have hver : verifyFrom fs (B ++ dc).reverse dc.length = true := by
     have := verify_of_crawl_nons fs o hns (B := B) dc.reverse (by simpa using hpar)
     simpa using this
-  obtain ⟨g0, hg0⟩ := scanDir_of_verified fs (ns := o.ns) hver (spellsAt_mem hsp) hf
+  obtain ⟨g0, hg0⟩ := scanDir_of_verified fs (ns := o.ns) hxi hver (spellsAt_mem hsp) hf
   have hlen : (dc ++ [x]).length - 1 = dc.length := by simp
   obtain ⟨g, hg⟩ := findLoop_some_of_found fs (ns := o.ns) (last := x) (nlev := dc.length)
     (candidates fs roots (dc ++ [x])) [] ⟨(B ++ dc, B), hcand, g0, hg0⟩
@@ -404,7 +404,7 @@ theorem find_claims_ns (wf : fs.WF) (hns : o.ns = true) {roots : List Path} {B :
   have hlen : (dc ++ [x]).length - 1 = dc.length := by simp
   rw [hns]
   by_cases hver : verifyFrom fs (B ++ dc).reverse dc.length = true
-  · obtain ⟨g0, hg0⟩ := scanDir_of_verified fs (ns := true) hver (spellsAt_mem hsp) hf
+  · obtain ⟨g0, hg0⟩ := scanDir_of_verified fs (ns := true) hxi hver (spellsAt_mem hsp) hf
     obtain ⟨g, hg⟩ := findLoop_some_of_found fs (ns := true) (last := x) (nlev := dc.length)
       (candidates fs roots (dc ++ [x])) [] ⟨(B ++ dc, B), hcand, g0, hg0⟩
     have hfm : findModule fs true roots (dc ++ [x]) = some g := by
@@ -423,9 +423,9 @@ theorem find_claims_ns (wf : fs.WF) (hns : o.ns = true) {roots : List Path} {B :
       rcases hbare with h | h
       · exact absurd h hver
       · exact h
-    obtain ⟨l, hl, hfl⟩ := scanDir_of_unverified fs (ns := true) hver' (spellsAt_mem hsp) hf
+    obtain ⟨l, hl, hfl⟩ := scanDir_of_unverified fs (ns := true) hxi hver' (spellsAt_mem hsp) hf
     have hmemf : (f, initLevel fs (B ++ dc) dc.length) ∈ missesOf fs true x dc.length (candidates fs roots (dc ++ [x])) :=
-      (mem_missesOf fs).mpr ⟨(B ++ dc, B), hcand, l, hl, hfl, rfl⟩
+      (mem_missesOf fs).mpr ⟨(B ++ dc, B), hcand, l, hl, hfl, (levelOf_of_ne fs hxi f).symm⟩
     obtain ⟨g, hg⟩ := findLoop_some_of_near fs (last := x) (nlev := dc.length) (candidates fs roots (dc ++ [x])) []
       (by intro h; simp only [List.nil_append] at h; rw [h] at hmemf; cases hmemf)
     have hfm : findModule fs true roots (dc ++ [x]) = some g := by
@@ -444,9 +444,10 @@ theorem find_claims_ns (wf : fs.WF) (hns : o.ns = true) {roots : List Path} {B :
       have hbd' : bd = R ++ dc := by simpa using hbd
       subst hbd'
       simp only at hs' hgl' hlvl
+      rw [levelOf_of_ne fs hxi] at hlvl
       have hgfile : g ∈ pkgFiles (R ++ dc) x ++ modFiles (R ++ dc) x ∧ fs.isFile g = true := by
         rcases scanDir_misses fs hs' g hgl' with h | h
-        · exact ⟨h.1, h.2.1⟩
+        · exact ⟨h.1, h.2⟩
         · rw [hnsd R hR] at h; cases h
       cases dc with
       | nil => simp [verifyFrom] at hver
